@@ -245,6 +245,11 @@ func c17TrigProp(c c17TrigCase) ev.Outcome {
 		}
 	}
 	o := ev.Outcome{NonTrivial: firesTwice || receivedAfterFire, Classes: []string{"api_trigger_" + trigClass(c.Trig)}}
+	for _, cl := range trigListClasses(c.Trig) {
+		if cl != "single_trigger" && cl != "mixed_trigger_list" {
+			o.Classes = append(o.Classes, "api_"+cl)
+		}
+	}
 	if firesTwice {
 		o.Classes = append(o.Classes, "api_key_fires_twice_or_more")
 	}
@@ -266,11 +271,27 @@ func c17TrigProp(c c17TrigCase) ev.Outcome {
 }
 
 func trigClass(trig []trigkit.TrigSpec) string {
+	cnt := map[string]int{}
+	repeated := false
 	parts := make([]string, len(trig))
 	for i, t := range trig {
 		parts[i] = t.Kind
+		cnt[t.Kind]++
+		if cnt[t.Kind] > 1 {
+			repeated = true
+		}
 	}
-	return strings.Join(parts, "+")
+	if !repeated {
+		return strings.Join(parts, "+")
+	}
+	// a list that repeats a trigger type: the types with their multiplicities, whatever the clause order
+	parts = parts[:0]
+	for _, k := range []string{"counting", "watermark", "eos"} {
+		if cnt[k] > 0 {
+			parts = append(parts, fmt.Sprintf("%sx%d", k, cnt[k]))
+		}
+	}
+	return "repeating_" + strings.Join(parts, "+")
 }
 
 // every non-empty subset of {COUNTING n (n in 1..4), ON WATERMARK, ON END OF STREAM}
@@ -375,7 +396,11 @@ func genTrig(t *rapid.T, watermarkOK bool) []trigkit.TrigSpec {
 
 func genTrigCase(t *rapid.T) c17TrigCase {
 	c := c17TrigCase{TimeIdx: rapid.IntRange(0, 1).Draw(t, "time_idx")}
-	c.Trig = genTrig(t, true)
+	if rapid.IntRange(0, 9).Draw(t, "free_list") < 3 {
+		c.Trig = genTrigList(t, true)
+	} else {
+		c.Trig = genTrig(t, true)
+	}
 	nk := rapid.IntRange(1, 4).Draw(t, "nkeys")
 	for i := 0; i < nk; i++ {
 		tv := gen.Time(rapid.SampledFrom([]int64{10, 20, 30}).Draw(t, "t"))
@@ -510,13 +535,17 @@ func genNodeCase(t *rapid.T) c17NodeCase { return genGroupByCase(t, 3, 24) }
 func TestC17(t *testing.T) {
 	r := ev.New("C17", "exploration",
 		"(a) trigger API: execution.New{Counting,Watermark,EndOfStream,Multi}TriggerPrototype driven as CustomTriggerGroupBy drives them (KeyReceived/WatermarkReceived/EndOfStreamReached, each followed by Poll) against a reference trigger written from the statement "+
-			"(counting: n-th record of a key fires it and resets its counter, pending counts fire at the end; watermark: a received key fires once the watermark has reached its time, everything pending at the end; end of stream: nothing before, every key after); Poll results compared as multisets (single trigger) or sets (Multi). "+
-			"api_exhaustive: every trigger configuration (all non-empty subsets of {COUNTING 1..4, ON WATERMARK, ON END OF STREAM}) x 4 two-key universes (two times; one time; time field second; one instant in two zones) x all event sequences of length <= 6 (two keys, watermarks 5/10/20 non-decreasing, end of stream last); api_random: up to 31 events, 1-4 keys. "+
-			"(b) node: nodes.NewCustomTriggerGroupBy with real aggregate prototypes over generated changelogs (untimed; timed with event time == time field; timed with event time <= time field; retractions; watermarks), observed after every input message: the consolidated output must equal what the specified triggers have fired so far "+
-			"(records reach the grouping through the event time buffer: in event time order once the watermark covers them); directly from the statement: after a forwarded watermark W every key at or below W shows its current result and, without COUNTING, no key beyond W is visible; COUNTING n shows the current result after every n-th record of a key (untimed); ON END OF STREAM leaves every remaining key with its final result, alone emits each once and nothing earlier. "+
+			"(counting: n-th record of a key fires it and resets its counter, pending counts fire at the end; watermark: a received key fires once the watermark has reached its time, everything pending at the end; end of stream: nothing before, every key after; a list: the union of the firings of every listed trigger, each with a state of its own); Poll results compared as multisets (single trigger) or sets (Multi). "+
+			"api_exhaustive: every trigger configuration (all non-empty subsets of {COUNTING 1..4, ON WATERMARK, ON END OF STREAM}) x 4 two-key universes (two times; one time; time field second; one instant in two zones) x all event sequences of length <= 6 (two keys, watermarks 5/10/20 non-decreasing, end of stream last); api_random: up to 31 events, 1-4 keys; three in ten draw a free trigger list (see c). "+
+			"(b) node: nodes.NewCustomTriggerGroupBy with real aggregate prototypes, and nodes.NewSimpleGroupBy (the fast path the planner builds for a lone or default ON END OF STREAM) for that trigger, over generated changelogs (untimed; timed with event time == time field; timed with event time <= time field; retractions; watermarks), observed after every input message: per key, the consolidated output must be what the specified triggers have fired so far "+
+			"(records reach the general node's grouping through the event time buffer: in event time order once the watermark covers them; the fast path consumes them as they arrive); directly from the statement: after a forwarded watermark W every key at or below W shows its current result and, without COUNTING, no key beyond W is visible; every listed COUNTING n shows the current result after every n-th record of a key (untimed); ON END OF STREAM leaves every remaining key with its final result and no other key, alone emits each once and nothing earlier. "+
+			"Three in ten histories are delivered out of order: records of a valid changelog moved between the same two watermarks, so that a retraction arrives (and, with equal event times, reaches the grouping) ahead of the record it cancels; the net multiset is valid at the end. While a key's signed multiset holds such a retraction nothing is asserted about it; from the moment it is a multiset again the key must show exactly one row when it has net rows (count(*) = their number; the other aggregate values are asserted only for keys that never were in that state) and no row when it has none: a key cancelled by a retraction that came first is not a remaining key. "+
+			"node_orders_exhaustive: every untimed sequence of <= 5 events over {3 rows of 2 keys} x {record, retraction} with a valid net multiset at the end (re-orderings included) x {ON END OF STREAM [both nodes]; COUNTING 1; COUNTING 2; COUNTING 2, COUNTING 3; ON END OF STREAM, COUNTING 2} with count(*), sum(x). "+
+			"(c) sql_trigger_lists: SELECT <keys>, <aggregates> FROM mem.t t GROUP BY <keys> [TRIGGER <list>] through sqlparser, parser, logical typecheck, optimizer (on and off) and materialiser over an in-memory changelog table whose source marks the output position after every message; the emitted changelog is judged by the same model as (b). Seven in ten lists are free: two or three COUNTING triggers with different parameters (COUNTING 2, COUNTING 3), the same COUNTING twice, ON WATERMARK / ON END OF STREAM repeated, each possibly next to other triggers, any clause order, up to 5 triggers; the others hold at most one trigger of each type; one in ten queries has no TRIGGER clause (default ON END OF STREAM, fast path). "+
 			"non-trivial: a key fires at least twice, or is received again after it fired",
-		"watermarks never decrease and no record arrives at or below a sent watermark (C18); a retraction repeats the row of its insertion, with an event time not below the insertion's",
-		"end of stream counts as a watermark beyond every time: ON WATERMARK fires everything still pending at the end (C16 demands the final result for every trigger set)")
+		"watermarks never decrease and no record arrives at or below a sent watermark (C18); a retraction repeats the row of its insertion; in histories delivered in order its event time is not below the insertion's",
+		"end of stream counts as a watermark beyond every time: ON WATERMARK fires everything still pending at the end (C16 demands the final result for every trigger set)",
+		"the quantifier (event sequences keys x {record, retraction, watermark}) has no 'never retracting an absent row' clause (C15 has): a retraction may precede its record; what a key's current result is while a retraction is ahead of its record is left open, and so are the aggregate values (other than count(*)) of a key that has been in that state: C15/C16 fix values for valid changelogs only")
 	c17Rec = r
 	var nSeq int
 	c17Sequences(2, []int64{5, 10, 20}, func([]c17Ev) bool { nSeq++; return true })
